@@ -180,7 +180,11 @@ def sanitizer_signature(stderr):
         return None
     frames = []
     # first stack trace only
-    first = stderr.split("\n\n")[0] if kind.startswith("ubsan") else stderr
+    i0 = stderr.find("    #0 ")
+    first = stderr[i0:] if i0 >= 0 else stderr
+    j = first.find("\n\n")
+    if j >= 0:
+        first = first[:j]
     for m in _FRAME.finditer(first):
         fn = m.group(2)
         if fn.startswith("__interceptor") or fn.startswith("__asan") or fn.startswith("__ubsan"):
@@ -197,7 +201,7 @@ def sanitizer_signature(stderr):
             break
         if int(m.group(1)) > 12:
             break
-    return kind + "/" + "<".join(frames) if frames else kind
+    return kind + "/" + ("<".join(frames) if frames else "harness-reads-accessor-result")
 
 
 # ---------------------------------------------------------------------------
@@ -208,6 +212,9 @@ class BatchCrash:
         self.index = index
         self.stderr = stderr
         self.rc = rc
+
+
+MAX_CRASHES_PER_BATCH = 40
 
 
 def run_batch(exe, lines, timeout=600, env=None):
@@ -224,6 +231,11 @@ def run_batch(exe, lines, timeout=600, env=None):
     if env:
         e.update(env)
     while start < len(lines):
+        if len(crashes) >= MAX_CRASHES_PER_BATCH:
+            # do not re-feed the tail for ever; the rest stays unexecuted (None)
+            crashes.append(BatchCrash(-2, "TOO-MANY-CRASHES: %d cases not executed"
+                                      % (len(lines) - start), 0))
+            break
         data = ("\n".join(lines[start:]) + "\n").encode()
         try:
             p = subprocess.run([exe, str(start)], input=data, stdout=subprocess.PIPE,
@@ -261,7 +273,8 @@ def run_batch(exe, lines, timeout=600, env=None):
 
 def _fill(results, out):
     last = -1
-    for ln in out.split("\n"):
+    # complete lines only: a line cut short by a crash is not a result
+    for ln in out.split("\n")[:-1]:
         if not ln:
             continue
         sp = ln.find(" ")
